@@ -141,9 +141,11 @@ Definition del_fields : list prim :=
 Definition del_cfields : list prim :=
   [Del C_FIELD; Del C_RAWF; Del C_RAWK; Del C_X; Del C_Y; Del C_Z].
 
-(* Field.set_pos + pre_pos: stores pos (variable 10), isometrized positions in variable 12 *)
+(* Field.set_pos + pre_pos: stores pos (variable 10), isometrized positions in variable 12.
+   Since /repo 002fae9 the pos setter stores COPIES (np.array(...).reshape / np.array per axis): the stored
+   positions never alias the caller's arrays, whatever their layout class [lay]. *)
 Definition set_pos (lay : nat) (structured : bool) (hist : nat) (dels : list prim) : list prim :=
-  conv 10 0 lay ++ [Store A_POS 10] ++ when (hist =? 2) dels
+  [New 10 1 [0]; Alias 10 10; Store A_POS 10] ++ when (hist =? 2) dels
   ++ (if structured then [New 11 5 [10]] else [Alias 11 10]) ++ [New 12 6 [11]].
 
 Definition store_name (s : nat) (dflt custom : attr) : option attr :=
